@@ -59,6 +59,11 @@ class C17(PureCheck):
             yield {"op": "any", "s": enc.enc_text(s), "via": 1}
         for s in CORPUS:
             yield {"op": "any", "s": enc.enc_text(s), "via": 0, "pre": 1}
+        # a growing line: every corpus sample of up to 48 characters right after each of its proper prefixes
+        for s in CORPUS:
+            if 2 <= len(s) <= 48:
+                for cut in range(1, len(s)):
+                    yield {"op": "any", "s": enc.enc_text(s), "via": cut % 2, "pref": cut}
         # long outputs: hundreds of sequences in one string, with and without an unsupported SGR code among them
         for nseq, unsupported in ((257, "\x1b[99m"), (300, "\x9b20m")):
             if True:
@@ -78,6 +83,12 @@ class C17(PureCheck):
             try:
                 fmtstr(FmtStr(Chunk(s)))
                 fmtstr(FmtStr(Chunk(s)), "bold")
+            except Exception:  # noqa
+                pass
+        if inp.get("pref") is not None:
+            # the call before this one was handed a proper prefix of this very string (a line parsed again as it grows)
+            try:
+                (FmtStr.from_str if inp["via"] else fmtstr)(s[:inp["pref"]])
             except Exception:  # noqa
                 pass
         if inp["via"]:
